@@ -50,6 +50,8 @@ func DrawFamily(t *rapid.T, f string) GCase {
 		var n string
 		s, n = spec.Separator(t)
 		name = "separators/" + n
+	case "samehandle":
+		s = spec.SameHandle(t)
 	case "prec":
 		if rapid.Bool().Draw(t, "precbase") {
 			s = spec.Productive(t, smallCfg)
